@@ -1,0 +1,14 @@
+//go:build verif
+
+/*
+ * Verification exports (C32: subscriber trie). Add-only wrappers exposing unexported functions
+ * to the external verification harness. Compiled only with `-tags verif`.
+ */
+
+package trie
+
+// VerifParseIgnoreBytes runs parseIgnoreBytes.
+func VerifParseIgnoreBytes(ig string) ([]bool, error) { return parseIgnoreBytes(ig) }
+
+// VerifNumNodes runs numNodes on the root.
+func VerifNumNodes(t *Trie) int { return numNodes(t.root) }
